@@ -236,6 +236,18 @@ def rule_b(ctx, T_i):
     ctx.rule(R, "matrixToCartesianIndexing folded as a signed axis permutation (model of swapaxes/flip) "
              "must equal the permutation interpret_indexing prescribes for dim 1,2,3, and "
              "cartesianToMatrixIndexing composed with it must be the identity in every dimension")
+    # call sites: the helpers default to dim=2 -- a call that leaves the dimension out re-indexes a 3-d array by the 2-d rule
+    n_calls = 0
+    for f_ in ctx.model.all_funcs():
+        for c_ in ast.walk(f_.node):
+            if isinstance(c_, ast.Call) and norm(c_.func).split(".")[-1] in ("matrixToCartesianIndexing", "cartesianToMatrixIndexing") and f_.name not in ("matrixToCartesianIndexing", "cartesianToMatrixIndexing"):
+                n_calls += 1
+                ctx.instance(R + ".calls")
+                ctx.consult(f_.module.name)
+                has_dim = len(c_.args) >= 2 or any(kw.arg == "dim" for kw in c_.keywords)
+                ctx.ob(R, f_.qname, f"`{norm(c_)[:60]}` passes the dimension of the array it re-indexes", has_dim,
+                       "the dimension is left to its default (2): for a 3-d image the axes are swapped and flipped by the 2-d rule, cells land in the wrong voxels", c_, evidence=True)
+    ctx.floor(R + ".calls", 1)
     ctx.floor(R, 3)
     fwd = ctx.model.func(MOD, "matrixToCartesianIndexing")
     bwd = ctx.model.func(MOD, "cartesianToMatrixIndexing")
